@@ -85,12 +85,24 @@ def _check_sequence(ctx, rule, inst, obj, fr, to, axname="AX", fi=None):
                     break
         if dim != dimsym(axname, to):
             problems.append(f"result dimension is {dim!r}, expected the `{to}` dimension {dimsym(axname, to)!r}")
+        # the boundary rule must act on the running sums that are kept: under 'wrap' the leading value is the last
+        # kept running sum, under 'extend' the first one, under 'fill' the fill value
+        if not problems:
+            kept = [lin({("x", i): 1 for i in w}) for w in spec if w != "B"]
+            nlead = sum(1 for w in spec if w == "B")
+            for rule in ("fill", "extend", "wrap"):
+                seq_r, _, _ = interp_xr(obj, n, dimsym(axname, fr), Sym(axname), rule=rule)
+                want_r = pad_seq(kept, nlead, 0, rule)
+                if seq_r != want_r:
+                    k = next(i for i, (a, b) in enumerate(zip(seq_r, want_r)) if a != b) if len(seq_r) == len(want_r) else 0
+                    problems.append(f"N={N}, boundary rule '{rule}': target point {k} is {_show(seq_r[k]) if k < len(seq_r) else '?'}; the rule must be applied to the running sums that are kept, giving {_show(want_r[k]) if k < len(want_r) else '?'}")
+                    break
     return problems
 
 
 def _show(e):
     if isinstance(e, tuple):
-        return " + ".join((f"{c}*" if c != 1 else "") + (f"x[{k[1]}]" if k[0] == "x" else f"{k[0]}-pad[{k[1]}]") for k, c in e) or "0"
+        return " + ".join((f"{c}*" if c != 1 else "") + (f"x[{k[1]}]" if k[0] == "x" else "fill_value" if k[0] == "fill" else f"{k[0]}-pad[{k[1]}]") for k, c in e) or "0"
     return repr(e)
 
 
